@@ -3,8 +3,12 @@
 //   tuner_driver <out.ndjson> <seed> <tuner-cases> <tune-cases>
 #include <numeric>
 #include "trace.h"
+#include <any>
+#include <atomic>
 #include <map>
 #include <mutex>
+#include <set>
+#include <streambuf>
 #include <nano/core/verif.h>
 #include <nano/machine/tune.h>
 #include <nano/splitter.h>
@@ -166,6 +170,44 @@ void tuner_case(vt::Rng& rng, int64_t icase)
     }
 }
 
+// what the model callback returns as its "model" (and later receives back as the warm start of another trial): its identity
+struct payload_t
+{
+    int64_t             code{0};
+    std::vector<double> params;
+    int64_t             fold{-1};
+};
+
+// a stream that only notes WHEN something is written to it: ml::tune reports every finished batch of trials through the logger of
+// the fit parameters (and nothing is written while a batch runs), so the numbers of finished callbacks seen at the writes are the
+// batch boundaries. Only the oracle of the warm-start clause uses them; when they cannot be read off, that clause is not demanded.
+class mark_buffer_t final : public std::streambuf
+{
+public:
+    mark_buffer_t(const std::atomic<int64_t>& done, std::set<int64_t>& marks)
+        : m_done(done)
+        , m_marks(marks)
+    {
+    }
+
+protected:
+    int_type overflow(int_type c) override
+    {
+        m_marks.insert(m_done.load());
+        return traits_type::not_eof(c);
+    }
+
+    std::streamsize xsputn(const char*, std::streamsize n) override
+    {
+        m_marks.insert(m_done.load());
+        return n;
+    }
+
+private:
+    const std::atomic<int64_t>& m_done;
+    std::set<int64_t>&          m_marks;
+};
+
 void tune_case(vt::Rng& rng, int64_t icase)
 {
     const auto n     = rng.range(12, 40);
@@ -217,15 +259,31 @@ void tune_case(vt::Rng& rng, int64_t icase)
         int64_t             code;
         int64_t             sum;
         int64_t             nvalid;
+        int64_t             start, end;      // logical clock at entry / exit
+        bool                warm, warmTyped; // a warm start was received / it is a payload of this driver
+        payload_t           from;            // the received warm start
     };
-    std::mutex          mutex;
-    std::vector<call_t> calls;
+    std::mutex           mutex;
+    std::vector<call_t>  calls;
+    std::atomic<int64_t> clock{0}, done{0};
+    std::set<int64_t>    marks;
+    mark_buffer_t        mark_buffer(done, marks);
+    std::ostream         mark_stream(&mark_buffer);
+    fit_params.logger(make_stream_logger(mark_stream));
     const auto          salt = rng.next() % 97;
     const auto          centre_min = rng.coin(1, 3);
 
-    const auto callback = [&](const indices_t& train, const indices_t& valid, tensor1d_cmap_t params, const std::any&, const logger_t&)
+    const auto callback = [&](const indices_t& train, const indices_t& valid, tensor1d_cmap_t params, const std::any& warm, const logger_t&)
     {
         call_t call;
+        call.start     = clock++;
+        call.warm      = warm.has_value();
+        call.warmTyped = false;
+        if (const auto* from = std::any_cast<payload_t>(&warm); from != nullptr)
+        {
+            call.warmTyped = true;
+            call.from      = *from;
+        }
         call.params.assign(params.begin(), params.end());
         call.fold    = -1;
         call.splitOK = false;
@@ -265,11 +323,13 @@ void tune_case(vt::Rng& rng, int64_t icase)
             vd(1, i)     = static_cast<scalar_t>(call.code);
             call.sum += e;
         }
+        call.end = clock++;
         {
             const std::scoped_lock lock(mutex);
             calls.push_back(call);
         }
-        return std::make_tuple(std::move(tr), std::move(vd), std::any{call.code});
+        ++done;
+        return std::make_tuple(std::move(tr), std::move(vd), std::any{payload_t{call.code, call.params, call.fold}});
     };
 
     vt::put(vt::J("Reset").i("case", icase).s("tuner", id).i("threads", threads));
@@ -295,9 +355,69 @@ void tune_case(vt::Rng& rng, int64_t icase)
         std::map<std::pair<int64_t, int64_t>, call_t> byslot;
         for (const auto& call : calls)
         {
+            byslot[{trial_of(call.params), call.fold}] = call;
+        }
+        // the batches of trials (trials are numbered in the order they were added): read off the logger marks when they are consistent
+        std::vector<int64_t> bounds; // numbers of trials after every batch
+        auto                 batches_known = !marks.empty() && *marks.rbegin() == result.trials() * result.folds();
+        for (const auto mark : marks)
+        {
+            batches_known = batches_known && mark % result.folds() == 0;
+            if (mark > 0)
+            {
+                bounds.push_back(mark / result.folds());
+            }
+        }
+        const auto distance = [&](const int64_t a, const int64_t b)
+        {
+            long double d2 = 0;
+            const auto  pa = result.params(a), pb = result.params(b);
+            for (tensor_size_t i = 0; i < pa.size(); ++i)
+            {
+                d2 += static_cast<long double>(pa(i) - pb(i)) * static_cast<long double>(pa(i) - pb(i));
+            }
+            return std::sqrt(d2);
+        };
+        int64_t nwarm = 0;
+        for (const auto& call : calls)
+        {
             const auto trial = trial_of(call.params);
-            vt::put(vt::J("Cb").i("trial", trial).i("fold", call.fold).b("splitOK", call.splitOK));
-            byslot[{trial, call.fold}] = call;
+            // the warm start handed to the callback: nothing, or what a FINISHED callback of the same fold returned (a model that
+            // is still being fitted - or one of another fold - is no model to start from, whatever the schedule)
+            const auto source = (call.warm && call.warmTyped) ? trial_of(call.from.params) : int64_t{-1};
+            const auto its    = byslot.find({source, call.fold});
+            auto       warmFinished = !call.warm;
+            if (call.warm && call.warmTyped && source >= 0 && call.from.fold == call.fold && its != byslot.end())
+            {
+                warmFinished = its->second.end < call.start && its->second.code == call.from.code;
+            }
+            // ... and, batch-wise: nothing in the first batch, afterwards the model of a trial of the EARLIER batches that is closest
+            // in the hyper-parameter space (Euclidean distance; any of the closest when there are ties)
+            auto    warmClosest = true;
+            int64_t batch0      = -1; // number of trials of the earlier batches
+            if (batches_known && trial >= 0)
+            {
+                batch0 = 0;
+                for (const auto bound : bounds)
+                {
+                    batch0 = bound <= trial ? bound : batch0;
+                }
+                if (batch0 == 0)
+                {
+                    warmClosest = !call.warm;
+                }
+                else
+                {
+                    warmClosest = source >= 0 && source < batch0;
+                    for (int64_t other = 0; warmClosest && other < batch0; ++other)
+                    {
+                        warmClosest = distance(source, trial) <= distance(other, trial) * (1.0L + 1e-12L) + 1e-300L;
+                    }
+                    nwarm += warmClosest ? 1 : 0;
+                }
+            }
+            vt::put(vt::J("Cb").i("trial", trial).i("fold", call.fold).b("splitOK", call.splitOK).b("warmFinished", warmFinished).b("warmClosest", warmClosest).i("warmFrom", source).i(
+                "batch0", batch0));
         }
         std::vector<int64_t> sums(static_cast<size_t>(result.trials()), 0);
         for (tensor_size_t t = 0; t < result.trials(); ++t)
@@ -313,18 +433,19 @@ void tune_case(vt::Rng& rng, int64_t icase)
                 const auto  trerr = result.stats(t, f, ml::split_type::train, ml::value_type::errors);
                 const auto  vderr = result.stats(t, f, ml::split_type::valid, ml::value_type::errors);
                 const auto  vdlos = result.stats(t, f, ml::split_type::valid, ml::value_type::losses);
-                const auto* extra = std::any_cast<int64_t>(&result.extra(t, f));
+                const auto* extra = std::any_cast<payload_t>(&result.extra(t, f));
                 vt::put(vt::J("Stored")
                             .i("trial", t)
                             .i("fold", f)
                             .b("trainOK", trerr.m_mean == static_cast<double>(call.code) && trerr.m_count == static_cast<double>(splits[static_cast<size_t>(f)].first.size()))
                             .b("validOK", std::fabs(vderr.m_mean * static_cast<double>(call.nvalid) - static_cast<double>(call.sum)) < 1e-9 &&
                                             vderr.m_count == static_cast<double>(call.nvalid) && vdlos.m_mean == static_cast<double>(call.code))
-                            .b("extraOK", extra != nullptr && *extra == call.code));
+                            .b("extraOK", extra != nullptr && extra->code == call.code && extra->params == call.params && extra->fold == call.fold));
                 sums[static_cast<size_t>(t)] += call.sum * (L / call.nvalid);
             }
         }
-        vt::put(vt::J("Optimum").i("trial", result.optimum_trial()).i("trials", result.trials()).a("sums", sums));
+        vt::put(vt::J("Optimum").i("trial", result.optimum_trial()).i("trials", result.trials()).a("sums", sums).i("batches", batches_known ? static_cast<int64_t>(bounds.size()) : -1).i(
+            "warmStarts", nwarm));
     }
     catch (const std::exception& e)
     {
